@@ -62,6 +62,12 @@ REGRESSION = [      # inputs of test/test_crashes.py (issues 22, numpy poly1d, P
     # the decompiler's own `frozenset({...})` then calls the imported global; recorded under the shadowed-name findings)
     bytes.fromhex("6376657269665f73696e6b0a6f746865720a6376657269665f73696e6b0a6f746865720a5666726f7a656e7365740a4e876376657269665f73696e6b0a66726f7a656e7365740a8004872891512930852e"),
     bytes.fromhex("4e636f730a6765747069640a6376657269665f73696e6b0a66726f7a656e7365740a32636f730a6765747069640a4e94282891951e0000000000000070350a70300a856976657269665f73696e6b0a66726f7a656e7365740a2e"),
+    # containers filled in MORE THAN ONE batch and referenced again afterwards (the pickler batches 1000 items; hand-assembled
+    # here with one item per batch): every later reference denotes the container with all batches
+    b"]\x94(K\x01e(K\x02eh\x00\x86.", b"]\x94K\x01a(K\x02K\x03eh\x00h\x00\x87.", b"]\x94(K\x01e2(K\x02e\x86.",
+    b"(]\x94(K\x01e(K\x02eh\x00l.", b"}\x94(K\x01K\x02u(K\x03K\x04uh\x00\x86.", b"\x80\x04\x8f\x94(K\x01\x90(K\x02\x90h\x00\x86.",
+    b"]\x94(K\x01e(K\x02e(K\x03eh\x00\x85\x94h\x00h\x01\x86.",
+    pickle.dumps([list(range(1002))] * 2, 2), pickle.dumps({"a": list(range(2001)), "b": None}, 4),
     b"cverif_sink\nfrozenset\n(K\x01\x91.", b"cverif_sink\nfrozenset\n(K\x01\x91\x85R.",
 ]
 SHADOWMODS = ["collections", "importlib", "gzip", "datetime", "functools", "string"]
